@@ -71,6 +71,43 @@ pub fn dispatch(op: &str, a: &[&str]) -> Option<Ans> {
             unsafe { so::crypto_secretbox_detached(s.as_mut_ptr(), smac.as_mut_ptr(), m.as_ptr(), m.len() as u64, n.as_ptr(), k.as_ptr()) };
             (format!("ok {} {}", hex(&mac), hex(&c)), format!("ok {} {}", hex(&smac), hex(&s)))
         }
+        // errtext_secretbox key nonce ct  /  errtext_box pk sk nonce ct  /  errtext_seal rpk rsk ct :
+        // the Display text of the error of every opening form (classic, in place, object API) on this input, hex-encoded;
+        // C17 requires it to be the same for all rejected inputs of one length (it must not describe the rejected data)
+        "errtext_secretbox" | "errtext_box" | "errtext_seal" => {
+            let mut texts: Vec<String> = vec![];
+            let mut push = |name: &str, r: Result<(), dryoc::Error>| match r { Ok(()) => texts.push(format!("{}=OK", name)), Err(e) => texts.push(format!("{}={}", name, e)) };
+            if op == "errtext_secretbox" {
+                let (k, n, c): ([u8; 32], [u8; 24], &[u8]) = (arr(&b[0]), arr(&b[1]), &b[2]);
+                let mut buf = vec![0u8; c.len().saturating_sub(16)];
+                push("easy", crypto_secretbox_open_easy(&mut buf, c, &n, &k));
+                let mut ip = c.to_vec();
+                push("easy_inplace", crypto_secretbox_open_easy_inplace(&mut ip, &n, &k));
+                if c.len() >= 16 {
+                    let mac: [u8; 16] = arr(&c[..16]);
+                    let mut buf = vec![0u8; c.len() - 16];
+                    push("detached", crypto_secretbox_open_detached(&mut buf, &mac, &c[16..], &n, &k));
+                }
+                let ob = dryoc::dryocsecretbox::VecBox::from_bytes(c).and_then(|bx| bx.decrypt_to_vec(&n, &k).map(|_| ()));
+                push("object", ob);
+            } else if op == "errtext_box" {
+                let (pk, sk, n, c): ([u8; 32], [u8; 32], [u8; 24], &[u8]) = (arr(&b[0]), arr(&b[1]), arr(&b[2]), &b[3]);
+                let mut buf = vec![0u8; c.len().saturating_sub(16)];
+                push("easy", crypto_box_open_easy(&mut buf, c, &n, &pk, &sk));
+                let mut ip = c.to_vec();
+                push("easy_inplace", crypto_box_open_easy_inplace(&mut ip, &n, &pk, &sk));
+                let ob = dryoc::dryocbox::VecBox::from_bytes(c).and_then(|bx| bx.decrypt_to_vec(&n.into(), &pk.into(), &sk).map(|_| ()));
+                push("object", ob);
+            } else {
+                let (rpk, rsk, c): ([u8; 32], [u8; 32], &[u8]) = (arr(&b[0]), arr(&b[1]), &b[2]);
+                let mut buf = vec![0u8; c.len().saturating_sub(48)];
+                push("seal_open", crypto_box_seal_open(&mut buf, c, &rpk, &rsk));
+                let kp = dryoc::dryocbox::KeyPair::from_slices(&rpk, &rsk).unwrap();
+                let ob = dryoc::dryocbox::VecBox::from_sealed_bytes(c).and_then(|bx| bx.unseal_to_vec(&kp).map(|_| ()));
+                push("object", ob);
+            }
+            (format!("ok {}", hex(texts.join("|").as_bytes())), "n/a".into())
+        }
         // open: key nonce ct buf
         "secretbox_open_easy" => {
             let (k, n, c): ([u8; 32], [u8; 24], &[u8]) = (arr(&b[0]), arr(&b[1]), &b[2]);
